@@ -75,14 +75,32 @@ def check_C14(ctx):
     for t_ in ['x eq "abc"', 'x co "b" and k eq 1', 'k eq 1 and n.x sw "a"', 'x in ["abc", "q"]', 'x eq 1.0.0', 'x gt 1']:
         for a_ in (('strreent', b'abc'), ('strreent', b'1.0.0')):
             cs.eval(t_, obj({'x': a_, 'k': I(1), 'n': {'x': a_}}), 're-entrant-stringer')
+    # every prefix of sentences whose left operand decides the rule (a parse that gives up quietly would evaluate the partial tree)
+    for t_ in scale.sentence_prefixes(ctx):
+        for o_ in (obj({'y': I(1), 'x': I(2), 'z': I(1)}), obj({'y': I(2)})):
+            cs.eval(t_, o_, 'sentence-prefixes')
+    for t_ in ['x eq "abc"', 'x co "b" and k eq 1', 'x eq "abc" or zz pr', 'n.x sw "a" and x ew "c"']:
+        for a_ in (('strsame', b'abc'), ('strsame', b'abcd')):
+            cs.eval(t_, obj({'x': a_, 'k': I(1), 'n': {'x': a_}}), 're-entrant-same-rule')
     for t_ in [b'x eq "caf\xe9"', b'x eq "\xff"', b'x co "\xc3"', b'x eq "a\xe9b" or y eq 1', b'x in ["\xe9", "b"]', b'x eq "\xed\xa0\x80"', b'x eq "\xc3\xa9"', b'x\xe9 eq 1', b'x eq 1 \xe9']:
         for o_ in (obj({'x': S(b'caf\xe9'), 'y': I(1)}), obj({'x': S(b'\xff')}), obj({'x': S('caf\ufffd')}), obj({'x': S('é')})):
             cs.eval(t_, o_, 'invalid-utf8-literal')
     res = ctx.run(cs)
     ctx.compare(cs.cases, res, ['verdict', 'err', 'ev3'], nontrivial=lambda c, mo: True)
     run_sequences(ctx, fields=('verdict', 'err', 'ev3'))
-    for c in cs.cases:
-        io = res.impl.get(c.id)
+    # a value of the caller that adds a key to the caller's own map while it is printed, the key read by a later comparison: no model
+    # counterpart (the object changes during the call), the three entry points are compared with each other only; every entry point
+    # starts from the same object
+    cs_mut = CaseSet()
+    for t_ in ['x eq "abc" and added pr', 'x co "b" and added eq 1', 'added pr or x eq "abc"', 'x eq "abc" or added pr', 'not (x eq "zzz") and added pr', 'n.k eq 1 and x sw "a" and added pr', 'x in ["abc"] and added ne null',
+               'added pr and x eq "abc" and added pr']:
+        for a_ in (('strmut', b'abc'), ('strmut', b'zzz')):
+            cs_mut.eval(t_, obj({'x': a_, 'k': I(1), 'n': {'k': I(1)}}), 'self-changing-object')
+    res_mut = ctx.run(cs_mut, label='mut', sides=('impl',), nshards=1)
+    for c in cs_mut.cases:
+        res.impl[c.id + 'm'] = res_mut.impl.get(c.id)
+    for c in cs.cases + cs_mut.cases:
+        io = res.impl.get(c.id + 'm') if c.fam == 'self-changing-object' else res.impl.get(c.id)
         if not io or 'ev3' not in io:
             continue
         v, e = io['verdict'], io['err'] != 'none'
@@ -345,6 +363,8 @@ def case_variant(rng, text, up):
 
 def check_C04(ctx):
     cs = CaseSet()
+    for (t_, o_, fam_) in scale.self_reference_literals(ctx):
+        cs.eval(t_, o_, fam_)
     lits = [('string', s) for s in STR_LITS]
     nonstr = [ABSENT, ('nil',), ('b', True), I(1), F(1.5), ('m', []), ('o', 1), ('o', 8), ('o', 13), ('o', 17)]
     fam_leaf_exh(cs, ctx.rng, ops=STR_OPS, literals=lits, attrs=STR_ATTRS + STRINGER_ATTRS + nonstr, fam='str-pool')
@@ -412,6 +432,16 @@ def check_C04(ctx):
     ev = [c for c in cs.cases if c.kind == 'eval']
     ctx.compare(ev, res, ['verdict', 'err'], scope=accepted)
     spec_violations(ctx, 'string comparison')
+    # the same comparisons in processes whose environment names a locale with special casing rules (Turkish, Azeri, Lithuanian): Unicode
+    # lower-casing does not depend on the environment
+    loc_cases = [c for c in ev if c.fam in ('str-pool', 'leaf-exh', 'casemap', 'case-variants')][:: ctx.n(5, 1)] + [c for c in ev if c.fam not in ('str-pool', 'leaf-exh')][:: ctx.n(9, 2)]
+    for loc in ('tr_TR.UTF-8', 'az_AZ.UTF-8', 'lt_LT.UTF-8'):
+        r2 = run_cases(loc_cases, ctx.work, label='locale-' + loc[:2], sides=('impl',), impl_env={'LANG': loc, 'LC_ALL': loc, 'LC_CTYPE': loc, 'LANGUAGE': loc[:2]})
+        ctx.evaluations += len(loc_cases)
+        for c in loc_cases:
+            a, b = res.impl.get(c.id), r2.impl.get(c.id)
+            if a and b and (a.get('verdict'), a.get('err')) != (b.get('verdict'), b.get('err')):
+                ctx.violation('the outcome depends on the locale named in the environment of the process (%s): %s/%s there, %s/%s otherwise' % (loc, b.get('verdict'), b.get('err'), a.get('verdict'), a.get('err')), [c], impl=b)
     ctx.compare([c for c in cs.cases if c.kind == 'lower'], res, ['lower'])
     ctx.extra['oracle_misses'] = 0
     spread_samples(ctx, cs, res)
@@ -444,6 +474,9 @@ def check_C09(ctx):
     lits = [('version', v) for v in VER_LITS]
     other = [ABSENT, ('nil',), ('b', True), I(1), F(1.0), ('m', []), ('o', 17), ('str', b'1.0.0'), ('strptr', b'1.0.0'), ('strpanic',), ('o', 8)]
     fam_leaf_exh(cs, ctx.rng, ops=REL, literals=lits, attrs=VER_ATTRS + other, fam='ver-pool')
+    for (a_, l_) in scale.version_boundaries(ctx):
+        for op in REL:
+            cs.eval('x %s %s' % (OP_SPELL[op][0], l_), obj({'x': S(a_)}), 'ver-boundaries', attr=S(a_), lit=('version', l_), op=op)
     fam_leaf_exh(cs, ctx.rng, ops=REL, literals=[('version', x) for x in ('1.0.0', '1.0.1', '0.9.0')], attrs=OTHER_TYPED + [('strver', b'1.0.0'), ('strverptr', b'1.0.0'), ('strver', b'1.0.1'), ('strver', b'0.9.0')], fam='ver-other-typed')
     for _ in range(ctx.n(2500, 80000)):
         lit = '.'.join(str(ctx.rng.choice([0, 1, 2, 9, 10, 11, 99, 100, 2**64 - 1, 2**64])) for _ in range(3))
@@ -762,8 +795,9 @@ def check_C18(ctx):
                    [S(x) for x in ['', 'abc', 'ABC', 'aBc', 'ab', 'b', 'a', ' ', 'abd', 'B', '\u017f', 's', '\u03c2', '\u03a3', '\u03c3',
                                    '\u212a', 'K', '\u0130', 'I', '\u00b5', '\u039c', 'stra\u017f\u017fe', '\u00df', '\u1e9e',
                                    '1.9.0', '1.10.0', '1.0.0-rc1', '1.0.0+a', '2024-01-01T00:00:00.2Z', '2024-01-01T00:00:00.7', '2024-01-01T00:00:00Z', '9', '10']] + [('str', b'abc'), ABSENT, I(1), ('nil',), ('o', 8)]),
-        'version': (['0.0.0', '1.0.0', '1.0.1', '1.9.0', '1.10.0', '2.0.0', '10.2.33', '18446744073709551615.0.0', '18446744073709551616.0.0', '1.0.18446744073709551616'],
-                    VER_ATTRS + [ABSENT, I(1), ('str', b'1.0.0'), ('nil',), S('1.0.18446744073709551616'), ('o', 38), ('strver', b'1.0.0'), ('strverptr', b'1.0.0'), ('strver', b'1.0.1'), ('o', 8)]),
+        'version': (['0.0.0', '1.0.0', '1.0.1', '1.9.0', '1.10.0', '2.0.0', '10.2.33', '18446744073709551615.0.0', '18446744073709551616.0.0', '1.0.18446744073709551616',
+                     '1.0.2097151', '1.0.2097152', '1.1.0', '1.2097152.7', '2.0.7', '1.0.65536', '1.0.4294967296', '1.1.1'],
+                    VER_ATTRS + [S('1.0.2097152'), S('1.0.2097151'), S('1.2097152.7'), S('1.0.2097153'), S('1.0.65536'), S('1.0.4294967296'), S('1.1.0'), ABSENT, I(1), ('str', b'1.0.0'), ('nil',), S('1.0.18446744073709551616'), ('o', 38), ('strver', b'1.0.0'), ('strverptr', b'1.0.0'), ('strver', b'1.0.1'), ('o', 8)]),
     }
     vectors = []   # (kind, attr, literal, {op: rule-case}, {op: call-case})
     for kind, (lits, attrs) in pools.items():
@@ -803,6 +837,11 @@ def check_C18(ctx):
     res = ctx.run(cs)
     ctx.compare([c for c in cs.cases if c.kind == 'eval'], res, ['verdict', 'err'], scope=accepted)
     ctx.compare([c for c in cs.cases if c.kind == 'opcall'], res, ['res', 'err'])
+    # an Operation value that is kept and used for many comparisons answers like a new one
+    for c in cs.cases:
+        io = res.impl.get(c.id)
+        if c.kind == 'opcall' and io and io.get('shared') == '0':
+            ctx.violation('direct call: an operation object that has been used before answers differently from a new one (%s/%s for the new one)' % (io.get('res'), io.get('err')), [c], impl=io)
     def is_nan(a):
         return a[0] == 'f' and fbits(a[1]) == NAN_BITS
     by_attr = {}
@@ -822,6 +861,11 @@ def check_C18(ctx):
             tk = a[0]
             by_type_incomparable = (kind == 'version' and tk != 's') or (kind in ('long', 'double') and tk not in ('i', 'i32', 'i64', 'f')) or \
                                    (kind in ('string', 'string-long') and tk in ('i', 'i32', 'i64', 'f', 'b', 'nil', 'absent', 'm', 'nilmap'))
+            mobs = {op: res.model.get(c.id) for op, c in cases.items()}
+            by_model_incomparable = all(mo is not None and fld in mo for mo in mobs.values()) and not any(mo[fld] == '1' for mo in mobs.values())
+            if by_model_incomparable and not by_type_incomparable and any(v.values()) and kind == 'version':
+                ctx.violation('%s: the attribute (%s) is not a valid semantic version (ported semver.Make of the proved model rejects it), so it is not comparable with a version literal, yet not all six operators are false: %s' % (src, val_desc(a) if a != ABSENT else 'absent', v), cl)
+                continue
             if by_type_incomparable and any(v.values()):
                 ctx.violation('%s: the attribute (%s) is not comparable with a %s literal, yet not all six operators are false: %s' % (src, val_desc(a) if a != ABSENT else 'absent', kind, v), cl)
                 continue
@@ -972,13 +1016,18 @@ def check_C01(ctx):
         groups.append((c, q_, None, None, {k.decode(): True for k, _ in o_[1]}))
     # non-ASCII text early in the rule, nil / empty object (harness/scale.py): compound vs its comparisons evaluated alone
     struct_groups = []
-    for (t_, o_, fam_, m_) in scale.nonascii_prefix(ctx) + scale.nil_object(ctx) + scale.path_reuse(ctx) + scale.escape_tails(ctx):
+    for (t_, o_, fam_, m_) in scale.nonascii_prefix(ctx) + scale.nil_object(ctx) + scale.path_reuse(ctx) + scale.escape_tails(ctx) + scale.repeated_groups(ctx):
         c_ = cs.eval(t_, o_, fam_)
         if m_ and len(m_[0]) > 0:
             struct_groups.append((c_, m_[1], [cs.eval(ct_, o_, fam_ + '-alone') for ct_ in m_[0]]))
     res = ctx.run(cs)
     ctx.compare([c for c in cs.cases if c.kind == 'eval'], res, ['verdict', 'err'], scope=accepted)
     run_sequences(ctx, fields=('verdict', 'err', 'ev3'))
+    # C01_boolean: for error-free evaluations the model's verdict IS the Boolean combination of the comparisons
+    for (c, f, i_, m_) in list(ctx.mismatches):
+        mo, io = res.model.get(c.id), res.impl.get(c.id)
+        if c.kind == 'eval' and f == 'verdict' and mo and io and mo.get('err') == 'none' and io.get('err') == 'none':
+            ctx.violation('compound verdict %s differs from the Boolean combination of its comparisons as computed by the proved model (%s)' % (i_, m_), [c], impl=io)
     for c, fn, alone in struct_groups:
         io = res.impl.get(c.id)
         lo = [res.impl.get(x.id) for x in alone]
@@ -1232,6 +1281,24 @@ def check_C17(ctx):
     # sibling operands that differ only inside a literal; neighbouring paths with a shared text prefix (harness/scale.py)
     for (A_, B_, C_, o_, fam_) in scale.law_operands(ctx):
         add(A_, B_, C_, o_, fam_)
+    for (A_, B_, o_) in scale.literal_spellings(ctx):
+        for C_ in ('k eq 1', 'zz pr', A_):
+            add(A_, B_, C_, o_, 'law-literal-spellings')
+            add(C_, A_, B_, o_, 'law-literal-spellings')
+            add(B_, C_, A_, o_, 'law-literal-spellings')
+    for (A_, B_) in [('x eq "("', 'y eq ")"'), ('x eq ")"', 'y eq "("'), ('x eq "(("', 'y eq "a)"'), ('x co "("', 'y co ") and ("'), ('x eq ")("', 'y eq 1'), ('x in ["(", "a"]', 'y in [")"]')]:
+        for o_ in (obj({'x': S('('), 'y': S(')')}), obj({'x': S(')'), 'y': S('(')}), obj({'x': S('(('), 'y': S('a)'), 'k': I(1)}), obj({'x': S(')('), 'y': I(1)})):
+            add(A_, B_, 'k eq 1', o_, 'law-paren-literals')
+            add(B_, A_, 'zz pr', o_, 'law-paren-literals')
+            add('(%s)' % A_, '(%s)' % B_, '(k eq 1)', o_, 'law-paren-literals')
+            add('(%s)' % B_, '(%s)' % A_, '(zz pr)', o_, 'law-paren-literals')
+    # an operand next to its own negation, the operand failing / undecided / panicking
+    for A_ in ['x gt true', 'k gt null', 'zz eq 1', 't pr', 'k eq 1', 'p eq "a"', 'x in [99999999999999999999]', 'k co 1']:
+        for C_ in ('k eq 1', 'zz pr', 'k gt null'):
+            add(A_, 'not (%s)' % A_, C_, objs[0], 'law-complement')
+            add('not (%s)' % A_, A_, C_, objs[0], 'law-complement')
+            add(C_, A_, 'not (%s)' % A_, objs[0], 'law-complement')
+            add('(%s)' % A_, '(not (%s))' % A_, '(%s)' % C_, objs[0], 'law-complement')
     for depth in (9, 17, 33):
         A = 't pr'
         for _ in range(depth):
@@ -1451,8 +1518,8 @@ def check_C20(ctx):
 
 # ----------------------------------------------------------------------------
 HOSTILE_STRINGS = [S(b'\x80' * 100), S(b'\xbf' * 65), S(b'\xff' * 70), S('\u00e9' * 40), S('a' * 63 + '\u00e9' + 'b' * 10), S('x' * 300), S(b'a' * 64 + b'\xc3'), S(b'\xe3\x81' * 40), S('\U0001f600' * 20), S(b'\x00' * 70)]
-HOSTILE = HOSTILE_STRINGS + [('strpanic',), ('strnilptr',), ('strselfpanic',), ('strpanicinvop',), ('strpanicinvopw',), ('nilmap',), ('nil',), F(float('nan')), F(float('inf')), F(float('-inf'))] + [('o', t) for t in list(range(21)) + [22, 23, 24, 25, 26, 27, 29, 30, 31, 32, 33, 34, 35, 36, 37, 38, 39, 40, 41, 42, 43, 44, 45, 46, 47, 48, 49]] + \
-          [('str', b'abc'), ('strptr', b'1.0.0'), ('m', [(b'y', ('strpanic',))]), ('m', [(b'y', ('o', 3))])]
+HOSTILE = HOSTILE_STRINGS + [('strpanic',), ('strnilptr',), ('strselfpanic',), ('strpanicinvop',), ('strpanicinvopw',), ('nilmap',), ('nil',), F(float('nan')), F(float('inf')), F(float('-inf'))] + [('o', t) for t in list(range(21)) + [22, 23, 24, 25, 26, 27, 29, 30, 31, 32, 33, 34, 35, 36, 37, 38, 39, 40, 41, 42, 43, 44, 45, 46, 47, 48, 49, 50, 51, 52]] + \
+          [('str', b'abc'), ('strptr', b'1.0.0'), ('m', [(b'y', ('strpanic',))]), ('m', [(b'y', ('o', 3))]), ('strsame', b'abc'), ('strsame', b'abcd'), ('strreent', b'abc'), ('strtm', b'abc')]
 
 def check_C07(ctx):
     cs = CaseSet()
@@ -1603,6 +1670,24 @@ def check_C11(ctx):
             cache_ = {id(r1_): cs.eval(text_, r1_, 'hist-fresh'), id(r2_): cs.eval(text_, r2_, 'hist-fresh'), id(skip_): cs.eval(text_, skip_, 'hist-fresh')}
             fresh = [cache_[id(o[1])] if o[0] in ('p', 'q') else None for o in ops]
             hs.append((h, ops, fresh))
+    # many calls on a rule with many comparisons: more than 2^20 (2^24) comparisons through one evaluator in total
+    for (nops_, ncalls_) in ([(300, 3600)] if ctx.quick else [(300, 3600), (300, 60000), (40, 30000)]):
+        text_ = ' and '.join('k%d eq %d' % (i, i) for i in range(nops_))
+        oa_ = obj({'k%d' % i: I(i) for i in range(nops_)})
+        ob_ = obj({'k%d' % i: I(i) for i in range(nops_ - 1)})
+        ops = [('p', oa_)] * ncalls_ + [('d',), ('p', ob_), ('d',), ('p', oa_), ('d',), ('r',), ('p', oa_), ('p', ob_), ('d',)]
+        h = cs.hist(text_, ops, 'hist-budget')
+        ea_, eb_ = cs.eval(text_, oa_, 'hist-fresh'), cs.eval(text_, ob_, 'hist-fresh')
+        fresh = [(ea_ if o[1] is oa_ else eb_) if o[0] in ('p', 'q') else None for o in ops]
+        hs.append((h, ops, fresh))
+    # the caller changes its object in place after the call and only then asks for the diagnostic: it is the diagnostic of the call
+    for text_ in ['x eq 1', 'a.b eq 1 or x eq 1', 'x eq "s" and y pr', 'x in [1, 2]', 'not (x gt 0)', 'x eq 1 or y eq 2']:
+        for (o1_, o2_) in [(obj({}), obj({'x': I(1), 'y': I(2), 'a': {'b': I(1)}})), (obj({'x': S('s')}), obj({'x': I(1), 'y': I(1)})), (obj({'x': I(1), 'y': I(2)}), obj({})), (obj({'x': I(5)}), obj({'x': S('s')}))]:
+            for ops in ([('n', o1_), ('u', o2_), ('d',), ('n', o1_), ('d',)], [('p', o2_), ('n', o1_), ('u', o2_), ('d',), ('u', o1_), ('d',), ('r',), ('u', o2_), ('d',)], [('p', o1_), ('d',), ('u', o2_), ('d',), ('n', o1_), ('u', o2_), ('d',), ('d',)],
+                        [('n', o1_), ('d',), ('n', o2_), ('u', o1_), ('d',)]):
+                h = cs.hist(text_, ops, 'hist-inplace-no-call')
+                fresh = [cs.eval(text_, o[1], 'hist-fresh') if o[0] in ('p', 'q', 'n') else None for o in ops]
+                hs.append((h, ops, fresh))
     # lists of every length around round sizes, attribute values around membership (fractions, the other numeric types), from the second call on
     for n in ([1, 2, 7, 8, 15, 16, 17, 32, 33, 64, 65] if ctx.quick else [1, 2, 7, 8, 9, 15, 16, 17, 31, 32, 33, 63, 64, 65, 127, 128, 129, 256, 257, 1025]):
         for text_, vals_ in [('x in [%s]' % ', '.join(str(i) for i in range(1, n + 1)), [F(2.5), F(n + 0.999), F(1.0), F(float(n)), F(n + 1.0), I(n), I(n + 1), F(0.5), F(-0.0), ('i64', n), ('i32', 1), S('1'), F(float('nan'))]),
@@ -1616,6 +1701,18 @@ def check_C11(ctx):
             fresh = [cs.eval(text_, o[1], 'hist-fresh') if o[0] in ('p', 'q') else None for o in ops]
             hs.append((h, ops, fresh))
     res = ctx.run(cs)
+    # a Process whose diagnostic the caller does not look at ('n'): the driver prints `skip` for it, the model's third field is dropped likewise
+    for h, ops, fresh in hs:
+        if any(o[0] == 'n' for o in ops) and h.id in res.model and 'out' in res.model[h.id]:
+            mo_ = res.model[h.id]['out'].split(';')
+            k_ = 0
+            for o in ops:
+                if o[0] == 'u':
+                    continue
+                if o[0] == 'n' and k_ < len(mo_):
+                    mo_[k_] = ','.join(mo_[k_].split(',')[:2] + ['skip'])
+                k_ += 1
+            res.model[h.id]['out'] = ';'.join(mo_)
     ctx.compare([c for c in cs.cases if c.kind == 'hist'], res, ['out'], nontrivial=lambda c, mo: True)
     run_sequences(ctx)
     for h, ops, fresh in hs:
@@ -1624,12 +1721,21 @@ def check_C11(ctx):
             continue
         outs = io['out'].split(';')
         last = None
+        fresh = [f for (op_, f) in zip(ops, fresh) if op_[0] != 'u']
+        ops = [op_ for op_ in ops if op_[0] != 'u']   # a change of the caller's object without a call prints nothing
         for k, (op, o, f) in enumerate(zip(ops, outs, fresh)):
-            if op[0] in ('p', 'q'):
+            if op[0] in ('p', 'q', 'n'):
                 fo = res.impl.get(f.id)
                 if not fo:
                     continue
                 v, e, d = o[1:].split(',')
+                if d == 'skip':
+                    # the diagnostic of this call was not read at once: it is what a fresh evaluator reports for this object
+                    if (v, e) != (fo['verdict'], fo['err']):
+                        ctx.violation('call %d on a reused evaluator gave %s, a fresh evaluator gives %s/%s' % (k, o, fo['verdict'], fo['err']), [h, f])
+                        break
+                    last = fo['dbg']
+                    continue
                 if (v, e, d != 'nil') != (fo['verdict'], fo['err'], fo['dbg'] != 'nil'):
                     ctx.violation('call %d on a reused evaluator gave %s, a fresh evaluator gives %s/%s/%s' % (k, o, fo['verdict'], fo['err'], fo['dbg']), [h, f])
                     break
@@ -1638,7 +1744,7 @@ def check_C11(ctx):
                 last = 'nil'
             else:
                 want = last if last is not None else 'nil'
-                if o[1:] != want:
+                if (o[1:] != 'nil') != (want != 'nil') or (o[1:] != want and want in ('nil', 'invop', 'missing', 'operand') and o[1:] in ('nil', 'invop', 'missing', 'operand')):
                     ctx.violation('LastDebugErr at step %d is %s, the latest Process/Reset left %s' % (k, o[1:], want), [h])
                     break
     # creation order / warm caches: the same cases in different orders, each order in its own process
@@ -1741,9 +1847,16 @@ def check_C12(ctx):
     for t_ in ['x eq "abc"', 'x co "b" and k eq 1', 'n.x sw "a" or k eq 1', 'x in ["abc", "q"]']:
         cs.eval(t_, obj({'x': ('strreent', b'abc'), 'k': I(1), 'n': {'x': ('strreent', b'abc')}}), 'conc-reentrant-stringer')
     # the deep rules come first: the goroutines start together behind a barrier, so they are all inside their deep rule at the same time
+    # 64 cases whose attribute value evaluates rules itself, run in the storm below on 32 goroutines at once (a bounded number of slots or a
+    # lock taken around caller code would leave every goroutine waiting for another)
+    n1_ = len(cs.cases)
+    for i_ in range(64):
+        cs.eval(['x eq "abc"', 'x co "b" and k eq 1', 'n.x sw "a" or k eq 1', 'x in ["abc", "q"]'][i_ % 4], obj({'x': ('strreent', b'abc'), 'k': I(1), 'n': {'x': ('strreent', b'abc')}, 'i': I(i_)}), 'conc-reentrant-storm')
+    storm_cases = cs.cases[n1_:]
     deep_cases = [c for c in cs.cases[n0_:] if c.fam == 'conc-deep']
-    cases = [c for c in cs.cases[n0_:] if c.fam != 'conc-deep'] + cases
-    res = ctx.run(cases + deep_cases, sides=('model', 'impl'))
+    cases = [c for c in cs.cases[n0_:] if c.fam not in ('conc-deep', 'conc-reentrant-storm')] + cases
+    res = ctx.run(cases + deep_cases + storm_cases, sides=('model', 'impl'))
+    deep_cases = deep_cases + storm_cases
     ctx.compare(cases, res, ['verdict', 'err', 'dbg'])
     inf = os.path.join(ctx.work, 'conc.in')
     with open(inf, 'w') as f:
@@ -1823,6 +1936,9 @@ def check_C19(ctx):
         cause = ctx.rng.choice(NERR_TEXTS)
         if cause == '' and ctx.rng.random() < 0.8:
             cause = 'e'
+        if ctx.rng.random() < 0.15:
+            # causes of unusual Go types (the driver builds them from the suffix): a slice-typed error, an error with its own Format method
+            cause = cause.rstrip('\n') + ctx.rng.choice([' (slice)', ' (formatter)'])
         msgs = [ctx.rng.choice(NERR_TEXTS) for _ in range(depth)]
         ops = []
         for _ in range(ctx.rng.randint(1, ctx.n(12, 30))):
@@ -1872,6 +1988,14 @@ def check_C19(ctx):
                     msgs = ['m%d' % i for i in range(depth)]
                     body = '%s (%s) (%s)' % (hx('boom'), ' '.join(hx(m) for m in msgs), ' '.join(ops))
                     cs.simple('nerr', body, 'nerr-nested-values', cause='boom', msgs=msgs, ops=ops)
+    for cause_ in ('boom (slice)', 'boom (formatter)', 'a "q" (formatter)', '100% (slice)'):
+        for depth in (1, 2, 3, 9):
+            for bad in (False, True):
+                msgs = ['m%d' % i for i in range(depth)]
+                ops = ['(orig %d)' % (depth - 1), '(error %d)' % (depth - 1), '(orig 0)', '(error 0)'] + (['(set 0 (%s (v 7 none)))' % hx('bad')] if bad else ['(set %d (%s (s %s)))' % (depth - 1, hx('k'), hx('v'))]) + \
+                      ['(error %d)' % (depth - 1), '(error %d)' % (depth - 1), '(orig %d)' % (depth - 1)]
+                body = '%s (%s) (%s)' % (hx(cause_), ' '.join(hx(m) for m in msgs), ' '.join(ops))
+                cs.simple('nerr', body, 'nerr-cause-types', cause=cause_, msgs=msgs, ops=ops)
     # the layer's message is data, never a format: '%' in messages, with and without a value that JSON rejects
     for msg in ['ratio above 100%', '%s', '%d items', '100%% sure', '%!s(MISSING)', '%v: %v', 'a%', '%', '%[1]s']:
         for bad in (False, True):
